@@ -488,4 +488,99 @@ theorem late_ramp_witness :
   norm_num
 
 
+/-! ## reloads: the calculator in force is that of the rule loaded last -/
+
+/-- coherence of a resource state: the controller in force was constructed from the bound rule -/
+def Coh (s : Sys ℚ) : Prop :=
+  match s.bound with
+  | none => True
+  | some (.wu T p cf _) => ∃ sc Iv, s.rule = some (.warmup (mkCfg T p cf), sc, Iv)
+  | some (.ma m _) => ∃ sc Iv, s.rule = some (.adaptive m, sc, Iv)
+
+theorem effCf_idem (cf : ℕ) : effCf (effCf cf) = effCf cf := by
+  unfold effCf; split_ifs <;> omega
+
+theorem mkCfg_norm (T : ℚ) (p cf : ℕ) : mkCfg T p (effCf cf) = mkCfg T p cf := by
+  unfold mkCfg; rw [effCf_idem]
+
+theorem coh_init : Coh ({} : Sys ℚ) := trivial
+
+/-- requests never change which rule is in force -/
+theorem req_keeps_rule (s : Sys ℚ) (t b : ℕ) : (req s t b).1.rule = s.rule ∧ (req s t b).1.bound = s.bound := by
+  obtain ⟨a, ha, hr, _, _⟩ := touch_arr s t
+  have hb : (s.touch t).bound = s.bound := by unfold Sys.touch; cases s.arr <;> rfl
+  unfold req
+  simp only [ha]
+  rcases h : threshold (s.touch t) a t with ⟨tk, thr⟩
+  exact ⟨hr, hb⟩
+
+theorem req_coh (s : Sys ℚ) (h : Coh s) (t b : ℕ) : Coh (req s t b).1 := by
+  obtain ⟨h1, h2⟩ := req_keeps_rule s t b
+  unfold Coh at h ⊢
+  rw [h1, h2]; exact h
+
+/-- whatever was loaded before, after loading a **valid memory-adaptive rule** `m` the calculator in force has exactly
+    `m`'s thresholds and water marks — so `low_at_or_below_low_mark` … `finite_nonneg` speak about the rule loaded last -/
+theorem reload_adaptive_follows_rule (s : Sys ℚ) (h : Coh s) (now : ℕ) (m : MemCfg) (iv sc Iv : ℕ) :
+    (∃ sc' Iv', (loadRule s now (.ma m iv) true sc Iv).rule = some (.adaptive m, sc', Iv')) ∧
+    Coh (loadRule s now (.ma m iv) true sc Iv) := by
+  unfold loadRule
+  simp only [Bool.not_true, Bool.false_eq_true, if_false]
+  cases hb : s.bound with
+  | none => exact ⟨⟨sc, Iv, rfl⟩, ⟨sc, Iv, rfl⟩⟩
+  | some b =>
+    dsimp only
+    by_cases hs : b.same (.ma m iv) = true
+    · rw [if_pos hs]
+      cases b with
+      | wu T p cf iv' => simp [RuleP.same] at hs
+      | ma m' iv' =>
+        simp only [RuleP.same, Bool.and_eq_true, decide_eq_true_eq] at hs
+        obtain ⟨rfl, _⟩ := hs
+        unfold Coh at h
+        rw [hb] at h
+        exact ⟨h, by unfold Coh; rw [hb]; exact h⟩
+    · rw [if_neg hs]
+      exact ⟨⟨sc, Iv, rfl⟩, ⟨sc, Iv, rfl⟩⟩
+
+/-- after loading a **valid warm-up rule** the calculator in force is `mkCfg T' period coldFactor` with the new period and
+    cold factor and a threshold `T'` that is the new one, or (kept controller) within `util.Float64Equals` of it -/
+theorem reload_warmup_follows_rule (s : Sys ℚ) (h : Coh s) (now : ℕ) (T : ℚ) (p cf0 iv sc Iv : ℕ) :
+    (∃ T' sc' Iv', (loadRule s now (.wu T p cf0 iv) true sc Iv).rule = some (.warmup (mkCfg T' p cf0), sc', Iv') ∧
+      (T' = T ∨ Carrier.feq T' T = true)) ∧
+    Coh (loadRule s now (.wu T p cf0 iv) true sc Iv) := by
+  have fresh : ∀ s' : Sys ℚ, s' = { loadWarmUp s now T p cf0 sc Iv with bound := some (RuleP.wu T p cf0 iv).norm } →
+      (∃ T' sc' Iv', s'.rule = some (.warmup (mkCfg T' p cf0), sc', Iv') ∧ (T' = T ∨ Carrier.feq T' T = true)) ∧ Coh s' := by
+    intro s' hs'
+    subst hs'
+    refine ⟨⟨T, sc, Iv, rfl, Or.inl rfl⟩, ?_⟩
+    unfold Coh
+    exact ⟨sc, Iv, by rw [mkCfg_norm]; rfl⟩
+  unfold loadRule
+  simp only [Bool.not_true, Bool.false_eq_true, if_false]
+  cases hb : s.bound with
+  | none => exact fresh _ rfl
+  | some b =>
+    dsimp only
+    by_cases hs : b.same (.wu T p cf0 iv) = true
+    · rw [if_pos hs]
+      cases b with
+      | ma m' iv' => simp [RuleP.same] at hs
+      | wu T' p' cf' iv' =>
+        simp only [RuleP.same, Bool.and_eq_true, beq_iff_eq] at hs
+        obtain ⟨⟨⟨hT, rfl⟩, rfl⟩, _⟩ := hs
+        unfold Coh at h
+        rw [hb] at h
+        obtain ⟨sc', Iv', hr⟩ := h
+        exact ⟨⟨T', sc', Iv', hr, Or.inr hT⟩, by unfold Coh; rw [hb]; exact ⟨sc', Iv', hr⟩⟩
+    · rw [if_neg hs]
+      exact fresh _ rfl
+
+/-- an invalid rule leaves the resource without any controller (`ok 0`) -/
+theorem reload_invalid_unprotected (s : Sys ℚ) (now : ℕ) (r : RuleP ℚ) (sc Iv : ℕ) :
+    (loadRule s now r false sc Iv).rule = none ∧ Coh (loadRule s now r false sc Iv) := by
+  unfold loadRule
+  exact ⟨rfl, trivial⟩
+
+
 end Sentinel.C11
